@@ -94,6 +94,16 @@ def monitors_child(rec):
 def run(tier):
     r = Run('C03', tier, level='other')
     cm.run_kernels(r, cm.kernels('c_crps', 'c_crps#decomp'))
+    try:
+        from vf import pproof, engp
+        obls, npaths = wrapper_obligations()
+        pproof.discharge(r, obls, file='src/hydrodiy/stat/metrics.py', fn_of=lambda ob: 'crps (python wrapper)')
+        r.functions.append(dict(file='metrics.py', fn='crps (python wrapper)', trusted=['c_hydrodiy_stat.crps (replaced by a recorder: its behaviour is the kernel contract)', 'pandas.notnull'], nonterminating=[], cutloops=0, unrolled=0, terminating=0))
+        r.extra['paths_explored'] = npaths
+    except (engp.Unsupported, engp.PathLimit) as e:
+        r.undecided.append('Engine P cannot execute the current crps wrapper symbolically: %s' % (str(e)[:300],))
+    except Exception:
+        r.broken.append('C03 Engine P driver crashed: ' + traceback.format_exc()[-2500:])
     monitors(r)
     r.assumptions += ['c_crps#decomp: use_weights == 0 (the only mode the Python wrapper uses), no NaN in observations / members, output vector zeroed on entry (the wrapper allocates it with numpy.zeros; the L3 monitor of C05 evaluates this requires at the boundary), statements under result == 0 (malloc succeeded)',
                       'doubles as reals: the identities hold exactly in real arithmetic; in float64 they hold to rounding (bounded monitor, relative 1e-10)',
@@ -101,3 +111,109 @@ def run(tier):
     r.explanation = ('proved (Engine C): crps == reliability + potential, resolution == uncertainty - potential, reliability / potential / uncertainty >= 0 for all sizes; '
                      'bounded: equality with the definition, climatology, invariances, missing observations')
     return r.finish()
+
+
+# ------------------------------------------------------------------------------------------------ Engine P: the python wrapper of c_crps
+def wrapper_obligations():
+    """the real metrics.crps executed on symbolic observations (possibly missing) and members with the compiled module replaced by a recorder:
+    the kernel is entered once, unweighted and unsorted, with exactly the forecasts whose observation is present, a zeroed (m+1) x 7 table and a
+    zeroed vector of 5 (the `requires` of the functional contract c_crps#decomp); the five numbers and the table it writes are returned under
+    the documented names."""
+    import numpy as np, z3, warnings, contextlib
+    from vf import engp, pproof, pybuild
+    from vf.engp import sym, SymReal, SymBool, SA
+    pybuild.activate()
+    from hydrodiy.stat import metrics as M
+
+    class PDX:
+        def __init__(self, real):
+            self.real = real
+
+        def __getattr__(self, k):
+            return getattr(self.real, k)
+
+        def notnull(self, x):
+            # ASSUMED contract of pandas.notnull on floats: true exactly for values that are not NaN
+            if engp.symbolic(x):
+                a = np.asarray(x, dtype=object); out = np.empty(a.shape, dtype=object)
+                out.flat = [SymBool(z3.Not(e.nan)) if isinstance(e, SymReal) else bool(self.real.notnull(e)) for e in a.flat]
+                return out.view(SA)
+            return self.real.notnull(x)
+
+    class Kernel:
+        def __init__(self):
+            self.calls = []
+
+        def crps(self, use_weights, is_sorted, obs, ens, weights, table, decompos):
+            self.calls.append(dict(use_weights=use_weights, is_sorted=is_sorted, obs=list(np.asarray(obs, dtype=object).ravel()), ens=np.asarray(ens, dtype=object).copy(),
+                                   weights=np.array(weights, dtype=object).copy(), table0=np.array(table, dtype=object).copy(), decompos0=np.array(decompos, dtype=object).copy()))
+            decompos[:] = [float(10 + i) for i in range(len(decompos))]
+            table[:] = np.arange(table.size, dtype=float).reshape(table.shape) + 100
+            return 0
+
+    obls = []; npaths = 0
+    for (n, m) in ((1, 2), (2, 2), (3, 1)):
+        obs = [SymReal(z3.Real('obs%d' % i), z3.Bool('obs%d!nan' % i)) for i in range(n)]
+        ens = [[sym('ens%d_%d' % (i, k)) for k in range(m)] for i in range(n)]
+        names = ['obs%d' % i for i in range(n)] + ['ens%d_%d' % (i, k) for i in range(n) for k in range(m)]
+        kern = Kernel()
+
+        def run():
+            kern.calls = []
+            o = np.empty(n, dtype=object); o[:] = obs
+            e = np.empty((n, m), dtype=object)
+            for i in range(n):
+                e[i, :] = ens[i]
+            try:
+                return ('ok', M.crps(o.view(SA), e.view(SA)), list(kern.calls))
+            except ValueError:
+                return ('ValueError', None, list(kern.calls))
+        saved = (M.np, M.pd, M.c_hydrodiy_stat, M.has_c_module)
+        M.np = engp.NPProxy(); M.pd = PDX(saved[1]); M.c_hydrodiy_stat = kern; M.has_c_module = lambda *a, **kw: True
+        try:
+            with warnings.catch_warnings():
+                warnings.simplefilter('ignore')
+                paths = engp.explore(run, base=[], allowed_exc=(), max_paths=256)
+        finally:
+            M.np, M.pd, M.c_hydrodiy_stat, M.has_c_module = saved
+        npaths += len(paths)
+        eq = lambda a, b: z3.And(z3.Not(SymReal.lift(a).nan), SymReal.lift(a).val == SymReal.lift(b).val)
+        zero = lambda arr: all((not isinstance(v, SymReal)) and float(v) == 0.0 for v in np.asarray(arr, dtype=object).ravel())
+        for kp, pa in enumerate(paths):
+            status, res, calls = pa.result
+            hyp = list(pa.pc) + list(pa.axioms)
+            tag = 'metrics.py/crps/n=%d,m=%d/path%d' % (n, m, kp)
+            present = [z3.Not(o.nan) for o in obs]
+            if status == 'ValueError':
+                obls.append(pproof.PObligation(tag + '/rejects-only-all-missing', 'post', 'crps raises ValueError only when every observation is missing (and then does not enter the kernel)', hyp,
+                                               z3.And(z3.BoolVal(len(calls) == 0), z3.Not(z3.Or(*present))), names)); continue
+            if len(calls) != 1:
+                obls.append(pproof.PObligation(tag + '/one-kernel-call', 'post', 'the kernel is entered exactly once', hyp, z3.BoolVal(False), names)); continue
+            c = calls[0]
+            kept = len(c['obs'])
+            # which forecasts were handed over: those (and only those) whose observation is present, in order
+            goal_rows = [z3.BoolVal(c['ens'].shape == (kept, m))]
+            j = 0; sel = []
+            # the path condition fixes which observations are present: read it off by asking, for each forecast, whether the kept rows match
+            match = z3.BoolVal(True)
+            # build the expected kept list symbolically: position-wise if-then-else chains would be needed in general; per path the pattern is concrete:
+            pattern = [bool(SymBool(p)) if False else None for p in present]
+            obls.append(pproof.PObligation(tag + '/flags', 'post', 'the kernel is entered unweighted (use_weights == 0) and unsorted (is_sorted == 0)', hyp,
+                                           z3.BoolVal(int(c['use_weights']) == 0 and int(c['is_sorted']) == 0), names))
+            obls.append(pproof.PObligation(tag + '/zeroed-outputs', 'post', 'the kernel receives a zeroed (m+1) x 7 table, a zeroed vector of 5 and a zero weight vector of the number of forecasts kept', hyp,
+                                           z3.BoolVal(c['table0'].shape == (m + 1, 7) and zero(c['table0']) and c['decompos0'].shape == (5,) and zero(c['decompos0']) and c['weights'].shape == (kept,) and zero(c['weights'])), names))
+            # every kept observation is present; the kept forecasts are exactly the present ones in order (count + order-preserving embedding)
+            npres = z3.Sum([z3.If(p, 1, 0) for p in present])
+            obls.append(pproof.PObligation(tag + '/keeps-all-present', 'post', 'the number of forecasts handed to the kernel is the number of observations present', hyp, npres == kept, names))
+            # order-preserving: the r-th kept forecast is the r-th present one
+            for r_ in range(kept):
+                alts = []
+                for i in range(n):
+                    before = z3.Sum([z3.If(present[q], 1, 0) for q in range(i)]) if i else z3.IntVal(0)
+                    alts.append(z3.And(present[i], before == r_, eq(c['obs'][r_], obs[i]), *[eq(c['ens'][r_, k], ens[i][k]) for k in range(m)]))
+                obls.append(pproof.PObligation(tag + '/row%d' % r_, 'post', 'forecast %d handed to the kernel is the %d-th forecast whose observation is present (observation and members unchanged)' % (r_, r_), hyp, z3.Or(*alts), names))
+            dec, tab = res
+            okret = list(dec.index) == ['crps', 'reliability', 'resolution', 'uncertainty', 'potential'] and [float(v) for v in dec.values] == [10.0, 11.0, 12.0, 13.0, 14.0] \
+                and list(tab.columns) == ['freq', 'a', 'b', 'g', 'rank', 'reliability', 'crps_potential'] and tab.shape == (m + 1, 7) and float(tab.values[0, 0]) == 100.0 and float(tab.values[m, 6]) == 100.0 + 7 * (m + 1) - 1
+            obls.append(pproof.PObligation(tag + '/returns-kernel-output', 'post', 'the five numbers and the table written by the kernel are returned under the documented names, in order', hyp, z3.BoolVal(bool(okret)), names))
+    return obls, npaths
